@@ -314,6 +314,8 @@ impl ParallelCacheState {
             // we need to changed state to destroyed.
             if is_destructed {
                 self.storage.remove(&address);
+                #[cfg(feature = "verif")]
+                crate::verif::point(crate::verif::pt::PS_DESTROY_GAP, 0);
                 return self.get_account_mut(address).selfdestruct();
             }
 
@@ -328,6 +330,8 @@ impl ParallelCacheState {
             if is_created {
                 let info = account.info;
                 self.storage.remove(&address);
+                #[cfg(feature = "verif")]
+                crate::verif::point(crate::verif::pt::PS_DESTROY_GAP, 0);
                 let (transition, changed_slots) =
                     self.get_account_mut(address).newly_created(info.clone(), changed_storage);
                 self.contracts.entry(info.code_hash).or_insert_with(|| info.code.clone().unwrap());
@@ -342,6 +346,8 @@ impl ParallelCacheState {
             // reaches the commit layer as touched, empty, and not created must be cleared.
             else if is_empty {
                 self.storage.remove(&address);
+                #[cfg(feature = "verif")]
+                crate::verif::point(crate::verif::pt::PS_DESTROY_GAP, 0);
                 drop(changed_storage);
                 (self.get_account_mut(address).touch_empty_eip161(), None)
             } else {
@@ -537,6 +543,8 @@ impl<'a, DB: DatabaseRef> ParallelStateView<'a, DB> {
             ),
             Some(acc) => CacheAccountInfo::new(Some(acc), AccountStatus::Loaded),
         };
+        #[cfg(feature = "verif")]
+        crate::verif::point(crate::verif::pt::PS_BASIC_FILL, 0);
         match self.cache.accounts.entry(address) {
             Entry::Vacant(entry) => Ok(entry.insert(account).account.clone()),
             Entry::Occupied(entry) => Ok(entry.into_ref().account.clone()),
@@ -575,6 +583,8 @@ impl<'a, DB: DatabaseRef> ParallelStateView<'a, DB> {
         } else {
             self.with_metrics(|| self.database.storage_ref(address, index))?
         };
+        #[cfg(feature = "verif")]
+        crate::verif::point(crate::verif::pt::PS_STORAGE_FILL, 0);
         let value = if let Some(slots) = self.cache.storage.get(&address) {
             *slots.entry(index).or_insert(value).value()
         } else {
